@@ -1,6 +1,7 @@
 package main
 
 import (
+	"os"
 	"math/big"
 	"math/rand"
 	"strings"
@@ -22,6 +23,18 @@ func (g *gen) pick(xs ...int64) int64 { return xs[g.r.Intn(len(xs))] }
 
 // ctx generates a well-formed context: 1 <= P <= Emax <= 100000, -100000 <= Emin <= 0.
 // allowP0 permits Precision 0 occasionally.
+// narrow gives c a narrow exponent range, MaxExponent below Precision. Nothing in the package forbids
+// it; C01/C07 exclude it from their domain ("Precision <= MaxExponent"), C09/C10 quantify over all contexts.
+func (g *gen) narrow(c *apd.Context) {
+	if c.Precision > 1 {
+		c.MaxExponent = int32(g.r.Intn(int(c.Precision)))
+	}
+}
+
+// exploreNarrow (env VERIF_NARROW=1) lets every stream draw contexts with MaxExponent < Precision; an
+// exploration aid, off in the registered checks (C01/C07 exclude such contexts from their domain).
+var exploreNarrow = os.Getenv("VERIF_NARROW") == "1"
+
 func (g *gen) ctx(allowP0 bool, big bool) *apd.Context {
 	var p int64
 	switch g.r.Intn(10) {
@@ -70,6 +83,10 @@ func (g *gen) ctx(allowP0 bool, big bool) *apd.Context {
 	if emax < 1 {
 		emax = 1
 	}
+	if exploreNarrow && p > 1 && g.r.Intn(6) == 0 {
+		emax = int64(g.r.Intn(int(p)))
+	}
+
 	switch g.r.Intn(9) {
 	case 0:
 		emin = 0
